@@ -399,6 +399,10 @@ type SOp struct {
 	// Poisoned (dupover): the duplicates are spawned while the incumbent is draining the messages queued
 	// behind a graceful Poison - it is still live, still registered, still owns its id
 	Poisoned bool `json:"poisoned,omitempty"`
+	// slowstop: the actor is poisoned and its Stopped handler blocks: while it is unregistered but has not
+	// finished Stopped, Registry.GetPID and Context.GetPID (asked from its parent / another actor) are nil
+	// mass: N actors m/0..m/N-1 are spawned, all stopped, and none may remain registered (N > 1024)
+	N int `json:"n,omitempty"`
 }
 
 type SCase struct {
@@ -414,12 +418,13 @@ type umsg struct{ N int }
 type mark struct{ ch chan struct{} }
 
 type spawnHarness struct {
-	e      *actor.Engine
-	mu     sync.Mutex
-	calls  map[string]int
-	logs   map[string][]string // id -> "inc:N"
-	parent *actor.PID
-	diesIn map[string]string // id -> lifecycle handler in which the next incarnation panics
+	e        *actor.Engine
+	mu       sync.Mutex
+	calls    map[string]int
+	logs     map[string][]string // id -> "inc:N"
+	parent   *actor.PID
+	diesIn   map[string]string  // id -> lifecycle handler in which the next incarnation panics
+	stopGate map[string]*gateIn // id -> gate entered by the Stopped handler of the current incarnation
 }
 
 func (h *spawnHarness) producer(id string) actor.Producer {
@@ -439,6 +444,15 @@ func (h *spawnHarness) producer(id string) actor.Producer {
 			case actor.Started:
 				if dies == "Started" {
 					panic("generated panic in Started")
+				}
+			case actor.Stopped:
+				h.mu.Lock()
+				g := h.stopGate[id]
+				delete(h.stopGate, id)
+				h.mu.Unlock()
+				if g != nil {
+					close(g.in)
+					<-g.ch
 				}
 			case gate:
 				<-m.ch
@@ -489,7 +503,7 @@ func runSpawns(c SCase) (map[string]int, error) {
 	if err != nil {
 		return nil, fmt.Errorf("harness: %v", err)
 	}
-	h := &spawnHarness{e: e, calls: map[string]int{}, logs: map[string][]string{}, diesIn: map[string]string{}}
+	h := &spawnHarness{e: e, calls: map[string]int{}, logs: map[string][]string{}, diesIn: map[string]string{}, stopGate: map[string]*gateIn{}}
 	mon := newMonitor(e)
 	h.parent = e.SpawnFunc(func(c *actor.Context) {
 		if f, ok := c.Message().(func(*actor.Context)); ok {
@@ -629,6 +643,68 @@ func runSpawns(c SCase) (map[string]int, error) {
 			} else {
 				feat["stop-of-unknown-id"]++
 			}
+		case "slowstop":
+			if !m.live {
+				continue
+			}
+			pid := actor.NewPID(e.Address(), full)
+			g := &gateIn{ch: make(chan struct{}), in: make(chan struct{})}
+			h.mu.Lock()
+			h.stopGate[full] = g
+			h.mu.Unlock()
+			ctxDone := e.Poison(pid).Done()
+			if err := waitCh(g.in, "the actor never reached its Stopped handler"); err != nil {
+				return nil, err
+			}
+			// inside Stopped: unregistered already, whoever asks
+			if p := e.Registry.GetPID(kind, sub); p != nil {
+				close(g.ch)
+				return nil, fmt.Errorf("op %d: %s is handling Stopped (it was unregistered before), yet Registry.GetPID returns %v", oi, full, p)
+			}
+			res := make(chan *actor.PID, 1)
+			e.Send(h.parent, func(c *actor.Context) { res <- c.GetPID(full) })
+			select {
+			case p := <-res:
+				if p != nil {
+					close(g.ch)
+					return nil, fmt.Errorf("op %d: %s is handling Stopped and is not registered any more, yet Context.GetPID asked from its parent returns %v", oi, full, p)
+				}
+			case <-time.After(wait):
+				close(g.ch)
+				return nil, fmt.Errorf("%w: parent did not answer a lookup", errInconclusive)
+			}
+			close(g.ch)
+			if err := waitCh(ctxDone, "stop context of "+full+" not done"); err != nil {
+				return nil, err
+			}
+			m.live = false
+			m.stopped++
+			feat["lookup-while-the-actor-handles-Stopped"]++
+		case "mass":
+			if op.N < 1 || op.N > 3000 {
+				return nil, nil
+			}
+			for round := 0; round < 2; round++ {
+				pids := make([]*actor.PID, op.N)
+				for i := range pids {
+					pids[i] = e.SpawnFunc(func(*actor.Context) {}, "m", actor.WithID(fmt.Sprint(i)))
+				}
+				ctxs := make([]<-chan struct{}, op.N)
+				for i, p := range pids {
+					ctxs[i] = e.Poison(p).Done()
+				}
+				for i := range ctxs {
+					if err := waitCh(ctxs[i], "mass stop"); err != nil {
+						return nil, err
+					}
+				}
+				for i := range pids {
+					if p := e.Registry.GetPID("m", fmt.Sprint(i)); p != nil {
+						return nil, fmt.Errorf("op %d: %d actors were spawned and all stopped (round %d); m/%d is still registered although its stop context is done", oi, op.N, round+1, i)
+					}
+				}
+			}
+			feat["mass-spawn-and-stop"]++
 		case "dupover":
 			// duplicates spawned over an incumbent that is blocked with a backlog
 			if !m.live || op.Backlog < 1 || op.Backlog > 20 || op.G < 1 || op.G > 8 {
@@ -826,7 +902,8 @@ func genSpawns(t *rapid.T) SCase {
 	c := SCase{}
 	n := rapid.IntRange(1, 14).Draw(t, "ops")
 	for i := 0; i < n; i++ {
-		op := SOp{K: rapid.SampledFrom([]string{"spawn", "spawn", "spawn", "burst", "burst", "stop", "poison", "dupover", "stillborn"}).Draw(t, "k")}
+		op := SOp{K: rapid.SampledFrom([]string{"spawn", "spawn", "spawn", "burst", "burst", "stop", "poison", "dupover", "stillborn", "slowstop"}).Draw(t, "k")}
+
 		op.ID = rapid.IntRange(0, 2).Draw(t, "id")
 		op.Child = rapid.IntRange(0, 2).Draw(t, "child") == 0
 		switch op.K {
@@ -844,6 +921,18 @@ func genSpawns(t *rapid.T) SCase {
 		c.Ops = append(c.Ops, op)
 	}
 	return c
+}
+
+// TestMassRegistry: populations beyond the registry's initial capacity (1024): spawn N actors, stop
+// them in a generated order and in generated waves, and look every id up afterwards.
+func TestMassRegistry(t *testing.T) {
+	st := vh.Test("TestMassRegistry")
+	rapid.Check(t, func(t *rapid.T) {
+		c := SCase{Ops: []SOp{{K: "mass", N: rapid.SampledFrom([]int{300, 1025, 1100, 1500, 2100, 2600}).Draw(t, "n")}}}
+		check(t, st, c, func() (map[string]int, error) { return runSpawns(c) }, func(f map[string]int) bool {
+			return f["mass-spawn-and-stop"] > 0 && c.Ops[0].N > 1024
+		})
+	})
 }
 
 func TestSpawns(t *testing.T) {
@@ -1086,6 +1175,7 @@ func rep[T any](run func(T) (map[string]int, error)) func(json.RawMessage) error
 func init() {
 	vh.RegisterReplay("TestDelivery", rep(runDelivery))
 	vh.RegisterReplay("TestSpawns", rep(runSpawns))
+	vh.RegisterReplay("TestMassRegistry", rep(runSpawns))
 	vh.RegisterReplay("TestRequests", func(raw json.RawMessage) error {
 		// the collision-frequency verdict needs several executions of the case
 		var c RCase
